@@ -160,6 +160,18 @@ class Holder(Base):
 outer = Holder().%(which)s
 '''
 
+# the callee is reached through a chain of two attributes of the bound positional
+FORWARD_ATTRS_SRC = '''
+def callee(%(callee)s): pass
+class NS(object): pass
+service = NS()
+service.backend = NS()
+service.backend.run = callee
+service.run = None
+def outer(func, %(outer)s):
+    return func.backend.run(%(args)s)
+'''
+
 # the callee is only the DEFAULT of a keyword-only parameter: neither the default nor a keyword bound by the
 # partial resolves it ("positionals resolve callee parameters, keywords do not")
 FORWARD_KWDEFAULT_SRC = '''
@@ -202,13 +214,18 @@ def check_forwarding_partial(ctx, oparams, cparams, by_keyword, dress=None):
         placement = ('outer', 'couter')[(len(oparams) + len(cparams)) % 2]
         ctx.count('C19.forwarding_partials_over_bound_methods')
         src = FORWARD_METHOD_SRC % dict(callee=sigs.render(cparams), outer=sigs.render(oparams), args=args, which=placement)
+    elif not dress and not by_keyword and (len(oparams) * 3 + len(cparams)) % 4 == 1:
+        placement = 'attrs'
+        ctx.count('C19.forwarding_partials_callee_through_attribute_chain')
+        src = FORWARD_ATTRS_SRC % dict(callee=sigs.render(cparams), outer=sigs.render(oparams), args=args)
     else:
         src = FORWARD_SRC % dict(callee=sigs.render(cparams), outer=sigs.render(oparams), args=args, dress=dress_line)
     g = sigs.compile_module(src, tag='vpart')
     outer, callee = g['outer'], g['callee']
+    bound_value = g['service'] if placement == 'attrs' else callee
     if dress:
         ctx.count('C19.forwarding_partials_through_modifier')
-    p = functools.partial(outer, func=callee) if by_keyword else functools.partial(outer, callee)
+    p = functools.partial(outer, func=callee) if by_keyword else functools.partial(outer, bound_value)
     # two partial objects stacked and NOT flattened by functools (the inner one carries an attribute), with a
     # positional bound at each level: the callee at the inner, the first parameter of outer at the outer one
     stacked = 0
@@ -220,8 +237,8 @@ def check_forwarding_partial(ctx, oparams, cparams, by_keyword, dress=None):
         ctx.count('C19.forwarding_partials_stacked')
     rp = dict(workload='partial-forwarding', oparams=sigs.to_json(oparams), cparams=sigs.to_json(cparams),
               by_keyword=by_keyword, dress=dress)
-    w = {'outer': '%sdef outer(%sfunc, %s): return func(%s)' % (dress_line + ' ' if dress_line else '', {'function': '', 'outer': 'self, ', 'couter': 'cls, '}[placement], sigs.render(oparams), args),
-         'placement': {'function': 'function', 'outer': 'bound method of an instance (inherited)', 'couter': 'classmethod through an instance (inherited)'}[placement],
+    w = {'outer': '%sdef outer(%sfunc, %s): return func(%s)' % (dress_line + ' ' if dress_line else '', {'function': '', 'attrs': '', 'outer': 'self, ', 'couter': 'cls, '}[placement], sigs.render(oparams), args),
+         'placement': {'function': 'function', 'attrs': 'function calling func.backend.run(...); the partial binds the object that has .backend.run', 'outer': 'bound method of an instance (inherited)', 'couter': 'classmethod through an instance (inherited)'}[placement],
          'callee': show_params(cparams), 'partial': 'partial(outer, func=callee)' if by_keyword else 'partial(outer, callee)'}
     ctx.evaluated()
     ctx.count('C19.forwarding_partials')
@@ -261,6 +278,8 @@ def check_forwarding_partial(ctx, oparams, cparams, by_keyword, dress=None):
             plain = signatures.signature(p)
         judge_forwarding_partial(ctx, sigtools, signatures, p, outer, callee, oparams, cparams, dress, ova, ovk, sig, plain, w, rp,
                                  bound=max(stacked, 1))
+        if round_ == 0 and not stacked:
+            check_second_partial(ctx, sigtools, signatures, outer, bound_value, p, w, rp)
 
 
 @core.guarded(None)
@@ -339,6 +358,35 @@ def check_two_level_partial(ctx, aparams, bparams_):
         V(ctx, 'two-level-forwarding-partial-differs-from-declared',
           'sigtools.signature(partial(outer, mid, inner_a, inner_b)) differs from the declared equivalent',
           dict(w, result=show(sig), declared=show(want)), rp)
+
+
+def check_second_partial(ctx, sigtools, signatures, outer, bound_value, first, w, rp):
+    """Another partial object over the same function, after the first one was retrieved: it is at depth 0 of ITS
+    signature, the function one level below, and the first partial object is nowhere in it -- nor did the first
+    answer change."""
+    p2 = functools.partial(outer, bound_value)
+    for retr in (sigtools.signature, signatures.signature):
+        try:
+            s1 = retr(first)
+            d1 = dict(s1.sources.get('+depths', {}))
+            s2 = retr(p2)
+        except Exception:
+            return
+        ctx.count('C19.second_partial_over_same_function')
+        d2 = s2.sources.get('+depths', {})
+        problems = []
+        if any(c is first for c in d2):
+            problems.append('the first partial object is listed in the signature of the second')
+        if not any(c is p2 and d == 0 for c, d in d2.items()):
+            problems.append('the second partial object is not at depth 0')
+        if any(c is outer and d != 1 for c, d in d2.items()):
+            problems.append('the function is not one level below the partial object')
+        if dict(s1.sources.get('+depths', {})) != d1:
+            problems.append('the depths of the signature retrieved first changed afterwards')
+        if problems:
+            V(ctx, 'second-partial-over-same-function', '; '.join(problems),
+              dict(w, retrieval=retr.__module__ + '.signature', depths_second=sources_view(s2).get('+depths'), depths_first=sources_view(s1).get('+depths')), rp)
+            return
 
 
 def case_no_mutation(oparams, cparams):
